@@ -2,7 +2,7 @@
     the refinement of the finite-map specification over whole histories (dir_refines_map), and the
     independence of the persistent image from the cache mode (cache_mode_irrelevant). *)
 From Coq Require Import ZArith List Bool Lia Permutation.
-Require Import H4.gen.Gen_DD H4.DDBvModel H4.DDBvProofs H4.DDSpec H4.DDModel H4.DDProofs H4.DDTagFacts H4.DDEofModel.
+Require Import H4.gen.Gen_DD H4.DDBvModel H4.DDBvProofs H4.DDSpec H4.DDModel H4.DDProofs H4.DDTagFacts H4.DDEofModel H4.DDCloseModel.
 Import ListNotations.
 Local Open Scope Z_scope.
 
@@ -1769,4 +1769,15 @@ Proof.
   intros bl. unfold eof_covers, htpstart_end_off. apply forallb_forall. intros b Hb.
   destruct (fold_eof_block bl 0) as [_ H]. destruct (H b Hb) as [H1 H2].
   apply andb_true_iff. split; [apply Z.leb_le; exact H1|]. apply forallb_forall. intros d Hd. apply Z.leb_le. auto.
+Qed.
+
+(* ------------------------------------------------------------------------------------------ *)
+(** * Hclose refused for attached access elements *)
+Lemma hclose_refused_lemma : forall rc, 0 < rc ->
+  hclose_refused_refcount rc = rc /\ badfrec (hclose_refused_refcount rc) = false /\ refusal_releases = false.
+Proof.
+  intros rc Hrc. assert (E : refusal_segment = [1]) by reflexivity.
+  unfold hclose_refused_refcount, refusal_releases. rewrite E. cbn [fold_left existsb Z.eqb Pos.eqb orb].
+  change (1 =? 1) with true. cbv iota. replace (rc - 1 + 1) with rc by lia.
+  split; [reflexivity|]. split; [|reflexivity]. unfold badfrec. destruct (Z.eqb_spec rc 0); [lia|reflexivity].
 Qed.
